@@ -253,31 +253,264 @@ Proof. induction cnt as [|c IH]; intros lo k Hk; [lia|]. cbn [noll_range]. destr
   - cbn. f_equal. lia.
   - cbn [nth]. rewrite IH by lia. f_equal. lia. Qed.
 
+
 (* ------------------------------------------------------------------------------------------ *)
-(** * The float row formula equals the exact one (bounded, by computation) *)
+(** * Radial polynomials: bounded checks in exact rational arithmetic *)
 
-Definition allZ (p : Z -> bool) (lo : Z) (n : positive) : bool :=
-  Pos.peano_rect (fun _ => Z -> bool) (fun lo => p lo) (fun _ rec lo => p lo && rec (lo + 1)) n lo.
-Lemma allZ_sound p n : forall lo, allZ p lo n = true -> forall j, lo <= j < lo + Zpos n -> p j = true.
+Lemma zrange_In N x : In x (zrange N) <-> 0 <= x < N.
+Proof. unfold zrange. rewrite in_map_iff. split.
+  - intros [k [<- Hk]]. apply in_seq in Hk. lia.
+  - intros H. exists (Z.to_nat x). split; [lia|]. apply in_seq. lia. Qed.
+Lemma forallb_zrange N p : forallb p (zrange N) = true -> forall x, 0 <= x < N -> p x = true.
+Proof. intros H x Hx. rewrite forallb_forall in H. apply H. apply zrange_In. exact Hx. Qed.
+
+Definition valid_nm (n m : Z) : bool := (0 <=? m) && (m <=? n) && Z.even (n - m).
+(* for all admissible (n, m) with n < N *)
+Definition all_nm (N : Z) (p : Z -> Z -> bool) : bool :=
+  forallb (fun n => forallb (fun m => negb (valid_nm n m) || p n m) (zrange N)) (zrange N).
+Lemma all_nm_sound N p : all_nm N p = true ->
+  forall n m, 0 <= m <= n -> n < N -> Z.even (n - m) = true -> p n m = true.
 Proof.
-  unfold allZ. induction n as [|n IH] using Pos.peano_ind; intros lo H j Hj.
-  - rewrite Pos.peano_rect_base in H. replace j with lo by lia. exact H.
-  - rewrite Pos.peano_rect_succ in H. apply andb_true_iff in H. destruct H as [H1 H2].
-    destruct (Z.eq_dec j lo) as [->|Hne]; [exact H1|]. apply (IH (lo + 1) H2). lia.
+  intros H n m Hm Hn He. unfold all_nm in H.
+  pose proof (forallb_zrange _ _ H n ltac:(lia)) as H1. cbv beta in H1.
+  pose proof (forallb_zrange _ _ H1 m ltac:(lia)) as H2. cbv beta in H2.
+  unfold valid_nm in H2. rewrite He in H2.
+  replace ((0 <=? m) && (m <=? n)) with true in H2 by lia. exact H2.
 Qed.
 
-(* for one j: the search found the true ceiling of the double, and the row equals the exact row *)
-Definition row_float_ok (j : Z) : bool :=
-  is_ceil (row_arg_float j) (ceil_float j) && (row_float j =? row_exact j).
-Definition float_bound : positive := 200000.
-Lemma row_float_checked : allZ row_float_ok 1 float_bound = true.
-Proof. vm_cast_no_check (eq_refl true). Qed.     (* the kernel evaluates it once, at Qed *)
 
-Theorem row_float_exact j : 1 <= j <= 200000 ->
-  is_ceil (row_arg_float j) (ceil_float j) = true /\ row_float j = row_exact j.
+(* ------------------------------------------------------------------------------------------ *)
+(** * One sample of a mode: factorisation, normalisation, mask laws (any commutative ring) *)
+
+Section ModeP.
+Variable S : Scalar.
+Hypothesis Sring : is_ring S.
+Add Ring Sr_zern : Sring.
+Variable sq : Qc -> S.
+
+(* the azimuthal factor as the code has it: cos(m theta) for m > 0, sin(m theta) with m < 0 *)
+Definition azimuthal (m : Z) (t : Qc) : S :=
+  if m =? 0 then k1 else if 0 <? m then kcos (zQ m * t)%Qc else ksin (zQ m * t)%Qc.
+
+Lemma radial_00 rho : radial 0 0 rho = 1%Qc.
+Proof. apply Qc_is_canon. reflexivity. Qed.
+
+(* value = normalisation * R_n^|m|(rho) * azimuthal factor * mask *)
+Theorem zernike_pt_factor m n nz rho t b : @kofq S 1%Qc = k1 ->
+  zernike_pt sq m n nz rho t b
+  = (norm_factor sq m n nz * kofq (radial m n rho) * azimuthal m t * kmask b)%K.
 Proof.
-  intros Hj. pose proof (allZ_sound _ _ _ row_float_checked j ltac:(unfold float_bound; lia)) as H.
-  unfold row_float_ok in H. apply andb_true_iff in H. destruct H as [H1 H2]. split; [exact H1|lia].
+  intros Hq1. unfold zernike_pt, norm_factor, azimuthal.
+  destruct (Z.eqb_spec m 0) as [->|Hm].
+  - destruct (Z.eqb_spec n 0) as [->|Hn].
+    + rewrite radial_00, Hq1. ring.
+    + destruct nz; ring.
+  - destruct (0 <? m); destruct nz; ring.
 Qed.
-Theorem noll_float_exact j : 1 <= j <= 200000 -> noll_float j = noll_exact j.
-Proof. intros Hj. unfold noll_float, noll_exact, noll_code. rewrite (proj2 (row_float_exact j Hj)). reflexivity. Qed.
+
+(* the extracted model runs with sq = 1 and reports norm2: the code's factor multiplies it *)
+Theorem zernike_pt_unnormalised m n nz rho t b :
+  zernike_pt sq m n nz rho t b = (norm_factor sq m n nz * zernike_pt (fun _ => k1) m n nz rho t b)%K.
+Proof.
+  unfold zernike_pt, norm_factor.
+  destruct (m =? 0); [destruct (n =? 0)|destruct (0 <? m)]; destruct nz; ring.
+Qed.
+Theorem norm_factor_square m n nz :
+  (forall q, (sq q * sq q)%K = kofq q) -> (forall a b : Qc, @kofq S (a * b)%Qc = (kofq a * kofq b)%K) ->
+  @kofq S 1%Qc = k1 -> 0 <= n ->
+  (norm_factor sq m n nz * norm_factor sq m n nz)%K = kofq (zQ (norm2 m n nz)).
+Proof.
+  intros Hsq Hmul Hq1 Hn. unfold norm_factor, norm2.
+  assert (E2 : forall a b, zQ (a * b) = (zQ a * zQ b)%Qc).
+  { intros a b. apply Qc_is_canon. unfold zQ, Qcmult, Q2Qc. cbn [this].
+    rewrite !Qred_correct. unfold Qeq, inject_Z, Qmult; cbn. ring. }
+  destruct (m =? 0); [destruct (n =? 0)|]; destruct nz;
+    try (change (zQ 1) with 1%Qc; rewrite Hq1; ring).
+  - apply Hsq.
+  - rewrite E2, Hmul, <- !Hsq. ring.
+Qed.
+
+(* zero outside the mask *)
+Theorem zernike_pt_outside m n nz rho t : zernike_pt sq m n nz rho t false = k0.
+Proof. unfold zernike_pt, kmask.
+  destruct (m =? 0); [destruct (n =? 0)|destruct (0 <? m)]; destruct nz; ring. Qed.
+
+(* the mask enters only through its support *)
+Theorem zernike_support_only rowf j nz (pts1 pts2 : list (Qc * Qc * Qc)) :
+  Forall2 (fun p q => fst p = fst q /\ mask_bool (snd p) = mask_bool (snd q)) pts1 pts2 ->
+  zernike sq rowf j nz pts1 = zernike sq rowf j nz pts2.
+Proof.
+  intros H. unfold zernike. destruct (noll_code rowf j) as [mn|e]; [|reflexivity]. cbn [rbind]. f_equal.
+  induction H as [|p q l1 l2 [H1 H2] _ IH]; [reflexivity|]. cbn [map]. rewrite IH, H1, H2. reflexivity.
+Qed.
+End ModeP.
+Arguments azimuthal {S}.
+
+(* ------------------------------------------------------------------------------------------ *)
+(** * zernike_coordinates *)
+
+Lemma QS_ring : is_ring QS. Proof. exact Qcrt. Qed.
+
+Lemma Qle_bool_Qcle a b : Qle_bool (this a) (this b) = true <-> (a <= b)%Qc.
+Proof. unfold Qcle. apply Qle_bool_iff. Qed.
+Lemma qmax_ge_l a b : (a <= qmax a b)%Qc.
+Proof. unfold qmax. destruct (Qle_bool (this a) (this b)) eqn:E.
+  - apply Qle_bool_Qcle. exact E. - apply Qcle_refl. Qed.
+Lemma qmax_ge_r a b : (b <= qmax a b)%Qc.
+Proof. unfold qmax. destruct (Qle_bool (this a) (this b)) eqn:E.
+  - apply Qcle_refl.
+  - destruct (Qcle_lt_or_eq b a) as [H|H].
+    + destruct (Qclt_le_dec b a) as [H1|H1]; [apply Qclt_le_weak; exact H1|].
+      apply Qle_bool_Qcle in H1. congruence.
+    + apply Qclt_le_weak. exact H.
+    + rewrite H. apply Qcle_refl. Qed.
+Lemma qmax_cases a b : qmax a b = a \/ qmax a b = b.
+Proof. unfold qmax. destruct (Qle_bool (this a) (this b)); auto. Qed.
+
+Lemma fold_qmax_init l : forall init, (init <= fold_left qmax l init)%Qc.
+Proof. induction l as [|x l IH]; intros init; cbn [fold_left]; [apply Qcle_refl|].
+  eapply Qcle_trans; [apply qmax_ge_l|apply IH]. Qed.
+Lemma fold_qmax_ge l : forall init x, In x l -> (x <= fold_left qmax l init)%Qc.
+Proof. induction l as [|y l IH]; intros init x Hx; [destruct Hx|]. cbn [fold_left]. destruct Hx as [->|Hx].
+  - eapply Qcle_trans; [apply qmax_ge_r|apply fold_qmax_init].
+  - apply IH. exact Hx. Qed.
+Lemma fold_qmax_attained l : forall init, fold_left qmax l init = init \/ In (fold_left qmax l init) l.
+Proof. induction l as [|y l IH]; intros init; cbn [fold_left]; [left; reflexivity|].
+  destruct (IH (qmax init y)) as [H|H].
+  - rewrite H. destruct (qmax_cases init y) as [E|E]; rewrite E; [left; reflexivity|right; left; reflexivity].
+  - right. right. exact H. Qed.
+
+Lemma In_rows {S : Scalar} (g : nat -> nat -> S) n m x :
+  In x (rows n m g) <-> exists i j, (i < n)%nat /\ (j < m)%nat /\ x = g i j.
+Proof. unfold rows. rewrite in_flat_map. split.
+  - intros [i [Hi Hx]]. apply in_map_iff in Hx. destruct Hx as [j [<- Hj]].
+    apply in_seq in Hi. apply in_seq in Hj. exists i, j. repeat split; lia.
+  - intros [i [j [Hi [Hj ->]]]]. exists i. split; [apply in_seq; lia|]. apply in_map. apply in_seq. lia. Qed.
+Lemma In_tabulate {S : Scalar} (a : arr S) x :
+  In x (tabulate a) <-> exists i j, 0 <= i < nr a /\ 0 <= j < nc a /\ x = get a i j.
+Proof. unfold tabulate. rewrite In_rows. split.
+  - intros [i [j [Hi [Hj ->]]]]. exists (Z.of_nat i), (Z.of_nat j). repeat split; lia.
+  - intros [i [j [Hi [Hj ->]]]]. exists (Z.to_nat i), (Z.to_nat j). repeat split; try lia.
+    rewrite !Z2Nat.id by lia. reflexivity. Qed.
+Lemma rows_ext {S : Scalar} (g h : nat -> nat -> S) n m :
+  (forall i j, (i < n)%nat -> (j < m)%nat -> g i j = h i j) -> rows n m g = rows n m h.
+Proof. intros H. unfold rows.
+  assert (E : forall l, (forall i, In i l -> (i < n)%nat) ->
+     flat_map (fun i => map (g i) (seq 0 m)) l = flat_map (fun i => map (h i) (seq 0 m)) l).
+  { induction l as [|i l IH]; intros Hl; [reflexivity|]. cbn [flat_map]. rewrite IH by (intros; apply Hl; now right).
+    f_equal. apply map_ext_in. intros j Hj. apply in_seq in Hj. apply H; [apply Hl; now left|lia]. }
+  apply E. intros i Hi. apply in_seq in Hi. lia. Qed.
+
+Lemma sum2_ext n m f g : (forall i j, 0 <= i < n -> 0 <= j < m -> f i j = g i j) -> sum2 n m f = sum2 n m g.
+Proof. intros H. unfold sum2. apply (sumZ_ext QS). intros i Hi. apply (sumZ_ext QS). intros j Hj. apply H; assumption. Qed.
+Lemma sum2_div n m f (c : Qc) : sum2 n m (fun i j => (f i j / c)%Qc) = (sum2 n m f / c)%Qc.
+Proof. unfold sum2, Qcdiv.
+  rewrite <- (sumZ_scale_r QS QS_ring). apply (sumZ_ext QS). intros i _.
+  rewrite <- (sumZ_scale_r QS QS_ring). reflexivity. Qed.
+
+Lemma mesh1_origin n (c : Qc) i : mesh1 n (c - zQ (n / 2))%Qc i = (zQ i - c)%Qc.
+Proof. unfold mesh1. ring. Qed.
+
+Section CoordsP.
+Variable mask : arr QS.
+Variable c : coords.
+Hypothesis Hc : zernike_coordinates mask = Ok c.
+
+Lemma coords_shape : 0 < nr mask /\ 0 < nc mask.
+Proof. unfold zernike_coordinates in Hc. destruct ((nr mask <=? 0) || (nc mask <=? 0)) eqn:E; [discriminate|]. lia. Qed.
+
+(* the polar origin is the centroid of the mask's support -- whatever the parity of the array
+   size: sum(i * mask)/sum(mask), sum(j * mask)/sum(mask) *)
+Theorem coords_origin_is_centroid :
+  c_origin_r c = (sum2 (nr mask) (nc mask) (fun i j => (zQ i * mbit mask i j)%Qc) / mcount mask)%Qc /\
+  c_origin_c c = (sum2 (nr mask) (nc mask) (fun i j => (zQ j * mbit mask i j)%Qc) / mcount mask)%Qc.
+Proof.
+  unfold zernike_coordinates in Hc. destruct ((nr mask <=? 0) || (nc mask <=? 0)); [discriminate|].
+  injection Hc as <-. cbn [c_origin_r c_origin_c]. unfold centroid_r, centroid_c. split.
+  - rewrite <- sum2_div. apply sum2_ext. intros. unfold Qcdiv. ring.
+  - rewrite <- sum2_div. apply sum2_ext. intros. unfold Qcdiv. ring.
+Qed.
+
+(* rho^2 and the direction of theta are measured from that origin *)
+Theorem coords_about_origin i j :
+  c_rho2 c i j = ((qsqr (zQ i - c_origin_r c) + qsqr (zQ j - c_origin_c c)) / c_rmax2 c)%Qc /\
+  c_dirx c i j = (- (zQ j - c_origin_c c))%Qc /\ c_diry c i j = (- (zQ i - c_origin_r c))%Qc.
+Proof.
+  unfold zernike_coordinates in Hc. destruct ((nr mask <=? 0) || (nc mask <=? 0)); [discriminate|].
+  injection Hc as <-. cbn [c_origin_r c_origin_c c_rho2 c_rmax2 c_dirx c_diry].
+  unfold r2_of. rewrite !mesh1_origin. repeat split; reflexivity.
+Qed.
+
+Definition dist2 (i j : Z) : Qc := (qsqr (zQ i - c_origin_r c) + qsqr (zQ j - c_origin_c c))%Qc.
+
+Lemma rmax2_eq : c_rmax2 c = rmax2_of mask dist2.
+Proof.
+  unfold zernike_coordinates in Hc. destruct ((nr mask <=? 0) || (nc mask <=? 0)); [discriminate|].
+  unfold dist2. injection Hc as <-. cbn [c_origin_r c_origin_c c_rmax2]. unfold rmax2_of. f_equal. unfold tabulate.
+  apply rows_ext. intros i j _ _. cbn [get]. unfold r2_of.
+  rewrite !mesh1_origin. reflexivity.
+Qed.
+
+(* c_rmax2 is the largest squared distance from the origin over the masked samples *)
+Theorem rmax2_is_max :
+  (forall i j, 0 <= i < nr mask -> 0 <= j < nc mask -> mask_bool (get mask i j) = true -> (dist2 i j <= c_rmax2 c)%Qc)
+  /\ (c_rmax2 c = 0%Qc \/
+      exists i j, 0 <= i < nr mask /\ 0 <= j < nc mask /\ mask_bool (get mask i j) = true /\ dist2 i j = c_rmax2 c).
+Proof.
+  rewrite rmax2_eq. unfold rmax2_of. split.
+  - intros i j Hi Hj Hm. apply fold_qmax_ge. apply (In_tabulate (S := QS)). exists i, j. cbn [nr nc get]. repeat split; try lia.
+    unfold mbit. rewrite Hm. change (K QS) with Qc. ring.
+  - match goal with |- context[fold_left qmax ?l ?z] => set (mx := fold_left qmax l z); destruct (fold_qmax_attained l z) as [H|H] end.
+    + left. exact H.
+    + apply (In_tabulate (S := QS)) in H. cbn [nr nc get] in H. destruct H as [i [j [Hi [Hj E]]]]. fold mx in E.
+      unfold mbit in E. destruct (mask_bool (get mask i j)) eqn:Hm.
+      * right. exists i, j. repeat split; try lia; [exact Hm|]. rewrite E. change (K QS) with Qc. ring.
+      * left. rewrite E. change (K QS) with Qc. ring.
+Qed.
+
+Lemma div_le_1 (a b : Qc) : (0 < b)%Qc -> (a <= b)%Qc -> (a / b <= 1)%Qc.
+Proof. intros Hb Hab. apply (Qcmult_lt_0_le_reg_r _ _ b Hb).
+  assert (Hne : b <> 0%Qc) by (intro E; rewrite E in Hb; apply (Qclt_not_eq _ _ Hb); reflexivity).
+  replace (a / b * b)%Qc with a by (field; exact Hne). rewrite Qcmult_1_l. exact Hab. Qed.
+
+(* rho <= 1 on the mask, rho = 1 at a farthest masked sample *)
+Theorem rho_one_at_farthest : (0 < c_rmax2 c)%Qc ->
+  (forall i j, 0 <= i < nr mask -> 0 <= j < nc mask -> mask_bool (get mask i j) = true -> (c_rho2 c i j <= 1)%Qc)
+  /\ (exists i j, 0 <= i < nr mask /\ 0 <= j < nc mask /\ mask_bool (get mask i j) = true /\ c_rho2 c i j = 1%Qc).
+Proof.
+  intros Hpos. destruct rmax2_is_max as [Hle Hex]. split.
+  - intros i j Hi Hj Hm. rewrite (proj1 (coords_about_origin i j)). apply div_le_1; [exact Hpos|]. apply Hle; assumption.
+  - destruct Hex as [E|[i [j [Hi [Hj [Hm E]]]]]].
+    + rewrite E in Hpos. exfalso. apply (Qclt_not_eq _ _ Hpos). reflexivity.
+    + exists i, j. repeat split; try lia; try assumption.
+      rewrite (proj1 (coords_about_origin i j)). fold (dist2 i j). rewrite E. field.
+      intro E0. rewrite E0 in Hpos. apply (Qclt_not_eq _ _ Hpos). reflexivity.
+Qed.
+End CoordsP.
+
+(* the coordinates depend on the mask only through its support *)
+Theorem coords_support_only (m1 m2 : arr QS) c1 c2 :
+  nr m1 = nr m2 -> nc m1 = nc m2 ->
+  (forall i j, 0 <= i < nr m1 -> 0 <= j < nc m1 -> mask_bool (get m1 i j) = mask_bool (get m2 i j)) ->
+  zernike_coordinates m1 = Ok c1 -> zernike_coordinates m2 = Ok c2 ->
+  c_origin_r c1 = c_origin_r c2 /\ c_origin_c c1 = c_origin_c c2 /\ c_rmax2 c1 = c_rmax2 c2 /\
+  (forall i j, c_rho2 c1 i j = c_rho2 c2 i j /\ c_dirx c1 i j = c_dirx c2 i j /\ c_diry c1 i j = c_diry c2 i j).
+Proof.
+  intros Hr Hcn Hm H1 H2.
+  assert (Hb : forall i j, 0 <= i < nr m1 -> 0 <= j < nc m1 -> mbit m1 i j = mbit m2 i j).
+  { intros i j Hi Hj. unfold mbit. rewrite Hm by assumption. reflexivity. }
+  assert (Ecnt : mcount m1 = mcount m2).
+  { unfold mcount. rewrite <- Hr, <- Hcn. apply sum2_ext. exact Hb. }
+  destruct (coords_origin_is_centroid m1 c1 H1) as [A1 B1]. destruct (coords_origin_is_centroid m2 c2 H2) as [A2 B2].
+  assert (Eor : c_origin_r c1 = c_origin_r c2).
+  { rewrite A1, A2, <- Ecnt, <- Hr, <- Hcn. f_equal. apply sum2_ext. intros. rewrite Hb by assumption. reflexivity. }
+  assert (Eoc : c_origin_c c1 = c_origin_c c2).
+  { rewrite B1, B2, <- Ecnt, <- Hr, <- Hcn. f_equal. apply sum2_ext. intros. rewrite Hb by assumption. reflexivity. }
+  assert (Erm : c_rmax2 c1 = c_rmax2 c2).
+  { rewrite (rmax2_eq m1 c1 H1), (rmax2_eq m2 c2 H2). unfold rmax2_of. f_equal. unfold tabulate. cbn [nr nc get].
+    rewrite <- Hr, <- Hcn. apply rows_ext. intros i j Hi Hj. unfold dist2. rewrite Eor, Eoc, Hb by lia. reflexivity. }
+  repeat split; try assumption.
+  - rewrite (proj1 (coords_about_origin m1 c1 H1 i j)), (proj1 (coords_about_origin m2 c2 H2 i j)), Eor, Eoc, Erm. reflexivity.
+  - rewrite (proj1 (proj2 (coords_about_origin m1 c1 H1 i j))), (proj1 (proj2 (coords_about_origin m2 c2 H2 i j))), Eoc. reflexivity.
+  - rewrite (proj2 (proj2 (coords_about_origin m1 c1 H1 i j))), (proj2 (proj2 (coords_about_origin m2 c2 H2 i j))), Eor. reflexivity.
+Qed.
